@@ -254,6 +254,8 @@ def judge(R, c, r, stats):
             stats["f17_inputs" if kid == "F17" else "lost_vertex_inputs"] = stats.get("f17_inputs" if kid == "F17" else "lost_vertex_inputs", 0) + 1
             kf = [k for k in R.known if k.get("id") == kid][0]
             R.known_finding(kid, kf.get("what", what)[:300])
+            if sum(1 for n in R.notes if isinstance(n, dict) and n.get("known_finding_input") == kid) < 2:
+                R.notes.append(dict(known_finding_input=kid, comparison=what, case=c))
         else:
             R.failure(what + f" (force magnitude {fm:.6g}, worst plane conditioning {min(ratios) if ratios else None}; no known "
                              f"finding explains it: leaving out the rounding-noise planes / lost-vertex contacts does not restore agreement)",
@@ -487,7 +489,8 @@ def run(tier, seed, replay=None):
             cases.append(gen_case(R.rng, k, tier))
     from concurrent.futures import ThreadPoolExecutor
     # two small cases interpreted (NUMBA_DISABLE_JIT=1) under coverage measurement, concurrently
-    small = [c for c in cases if c["b1"]["shape"] in ("cube", "box") and c["b2"]["shape"] in ("cube", "box")][:2]
+    small = [c for c in cases if c["b1"]["shape"] in ("cube", "box") and c["b2"]["shape"] in ("cube", "box")
+             and not str(c.get("cls", "")).startswith("corpus")][:2]
     small += [c for c in cases if c.get("mode") == "separated" and c["b1"]["shape"] in ("cube", "box", "sphere")][:1]
     with ThreadPoolExecutor(2) as ex:
         fcov = ex.submit(cm.run_impl, PID, "c16", dict(cases=[dict(c, broad=True) for c in small], trace=True), 1500, False, "cov")
@@ -504,8 +507,12 @@ def run(tier, seed, replay=None):
             j = res[cases.index(c)]
             if r and j and "exc" not in r and "exc" not in j:
                 sc = max(1e-300, max(abs(x) for x in j["base"]["w12"] + j["base"]["w21"]))
-                if r["base"]["inter"] != j["base"]["inter"] or max(abs(a - b) for a, b in zip(r["base"]["w12"] + r["base"]["w21"], j["base"]["w12"] + j["base"]["w21"])) > 1e-6 * sc:
-                    R.corr_broken.append("interpreted and compiled contact_forces disagree")
+                dv = max(abs(a - b) for a, b in zip(r["base"]["w12"] + r["base"]["w21"], j["base"]["w12"] + j["base"]["w21"])) / sc
+                R.cov["interpreted_vs_compiled_max_relative_deviation"] = max(R.cov.get("interpreted_vs_compiled_max_relative_deviation", 0.0), dv)
+                # 1-ulp differences between the two execution modes can flip a polygon vertex on coincident face lines (known
+                # finding F26 family, measured 0.4 % by the C20 check): only a difference at the property's 5 % breaks the tie
+                if r["base"]["inter"] != j["base"]["inter"] or dv > TOL:
+                    R.corr_broken.append(f"interpreted and compiled contact_forces disagree by {dv:.3g}")
     else:
         R.cov["implementation_coverage"] = "coverage run failed: " + str(rc.get("log", ""))[-300:]
     R.cov["evaluations"] = len(cases)
